@@ -228,6 +228,50 @@ def _scan_condterm(t: str, ctext: str):
     return None
 
 
+_LEN_DISPLAY = re.compile(r"len\(\[([^\[\]()]*)\]\)")
+
+
+def _fold_len(t: str) -> str:
+    """len([a, b]) of a display of plain elements (no nested brackets, no repetitions) is their number."""
+    def count(m):
+        inner = m.group(1).strip()
+        if "rep(" in inner or "when(" in inner or "<" in inner:
+            return m.group(0)
+        return str(0 if not inner else inner.count(",") + 1)
+
+    return _LEN_DISPLAY.sub(count, t) if "len([" in t else t
+
+
+def _scan_when(t: str, ctext: str):
+    """(start, end, a, b) of `when('ctext', [A], [B])` inside t (A, B without their brackets); None if absent."""
+    needle = "when(" + repr(ctext) + ", ["
+    pos = t.find(needle)
+    if pos == -1:
+        return None
+
+    def bracket(i):
+        """t[i] == '[': index just after the matching ']'."""
+        depth = 0
+        for j in range(i, len(t)):
+            if t[j] in "([{":
+                depth += 1
+            elif t[j] in ")]}":
+                depth -= 1
+                if depth == 0:
+                    return j + 1
+        return None
+
+    a_start = pos + len(needle) - 1
+    a_end = bracket(a_start)
+    if a_end is None or t[a_end:a_end + 2] != ", " or a_end + 2 >= len(t) or t[a_end + 2] != "[":
+        return None
+    b_start = a_end + 2
+    b_end = bracket(b_start)
+    if b_end is None or b_end >= len(t) or t[b_end] != ")":
+        return None
+    return pos, b_end + 1, t[a_start + 1:a_end - 1], t[b_start + 1:b_end - 1]
+
+
 def neg_text(ctext: str) -> str:
     if " and " in ctext or " or " in ctext:
         return f"not ({ctext})"
@@ -329,15 +373,18 @@ class _EndWith(ast.stmt):
 
 
 class Summariser:
-    def __init__(self, fn: ast.FunctionDef, params: dict | None = None, consts: dict | None = None):
+    def __init__(self, fn: ast.FunctionDef, params: dict | None = None, consts: dict | None = None, seq_names=None):
         self.consts = consts or {}
         self.fn = fn
+        # parameters declared as sequences / mappings: their truthiness is a test of their length
+        self.seq_names = set(seq_names) if seq_names is not None else sequence_parameters(fn)
         self.loop_id = 0
         self.params = params or {}
         self._locals = {a.arg for a in fn.args.args + fn.args.kwonlyargs} | {n.id for n in ast.walk(fn) if isinstance(n, ast.Name) and isinstance(n.ctx, ast.Store)}
         self._comp_effects: list = []
         self.depth = 0  # > 0 inside loop bodies / comprehensions: branches are merged there, forked at top level
         self.atoms = {}  # condition text -> (atoms if true, atoms if false)
+        self.loop_atoms = set()  # conditions met inside a loop body that call a method of an object: evaluated anew in every iteration
         self.condterms = {}  # text of a conditional term -> (condition text, text if true, text if false)
 
     # ------------------------------------------------------------------ driver
@@ -365,9 +412,16 @@ class Summariser:
         return self.finalise(paths)
 
     # ------------------------------------------------------------------ canonical set of paths
+    _METHOD_CALL = re.compile(r"[A-Za-z0-9_\])]\.[A-Za-z_]\w*\(")
+
+    def _per_iteration(self, c: str) -> bool:
+        return _loop_var(c) or c in self.loop_atoms
+
     def orient(self, ct, cf):
         """Canonical orientation of a condition: (text, swapped?).  `if c: A else: B` and `if not c: B else: A` agree."""
         tt, tf = self.cond_text(ct), self.cond_text(cf)
+        if self.depth > 0 and self._METHOD_CALL.search(tt):
+            self.loop_atoms.update((tt, tf))  # e.g. `parser.get_token().value == ...`: another token in every iteration
         if tf < tt:
             self.atoms[tf] = (cf, ct)
             return tf, True
@@ -416,9 +470,85 @@ class Summariser:
             if conds is None:
                 continue  # contradictory integer constraints: the path cannot be taken
             p.conds = tuple(sorted(conds))
+            self._renumber(p)
             feasible.append(p)
         feasible.sort(key=lambda p: (p.conds, p.kind, p.value or ""))
         return feasible
+
+    _LOOP_NO = re.compile(r"(?<![A-Za-z0-9_])(_[ie]|@loop|@after|@cur|@partial)(\d+)(?![0-9])")
+
+    def _renumber(self, p):
+        """Loops are numbered in the order in which the summariser met them, including loops in branches this path does
+        not take (both arms of a conditional expression are evaluated).  On the finished path the numbers are made
+        dense in order of first appearance, so that the same path has the same names whatever was explored beside it."""
+        order = []
+
+        def note(t):
+            for m in self._LOOP_NO.finditer(t):
+                if m.group(2) not in order:
+                    order.append(m.group(2))
+
+        def walk(effects):
+            for e in effects:
+                if e[0] == "rep":
+                    note(str(e[1]))
+                    walk(e[2])
+                elif e[0] == "if":
+                    note(str(e[1]))
+                    walk(e[2])
+                    walk(e[3])
+                elif e[0] == "maybe":
+                    walk(e[1])
+                else:
+                    for x in e[1:]:
+                        note(str(x))
+
+        walk(p.effects)
+        note(p.value or "")
+        for c, _ in p.conds:
+            note(c)
+        mapping = {old: str(i + 1) for i, old in enumerate(order)}
+        if all(k == v for k, v in mapping.items()):
+            return
+
+        def sub(t):
+            return self._LOOP_NO.sub(lambda m: m.group(1) + mapping.get(m.group(2), m.group(2)), t)
+
+        def sub_eff(effects):
+            res = []
+            for e in effects:
+                if e[0] == "rep":
+                    res.append(("rep", sub(str(e[1])), tuple(sub_eff(e[2]))))
+                elif e[0] == "if":
+                    res.append(("if", sub(str(e[1])), tuple(sub_eff(e[2])), tuple(sub_eff(e[3]))))
+                elif e[0] == "maybe":
+                    res.append(("maybe", tuple(sub_eff(e[1]))))
+                else:
+                    res.append(tuple(sub(x) if isinstance(x, str) else x for x in e))
+            return res
+
+        def sub_parts(parts):
+            res = []
+            for part in parts:
+                if part[0] == "e":
+                    res.append(("e", sub(part[1])))
+                elif part[0] == "rep":
+                    res.append(("rep", sub(part[1]), tuple(sub_parts(part[2]))))
+                elif part[0] == "if":
+                    res.append(("if", sub(part[1]), tuple(sub_parts(part[2])), tuple(sub_parts(part[3]))))
+                else:
+                    res.append(part)
+            return res
+
+        p.effects = sub_eff(p.effects)
+        p.conds = tuple(sorted((sub(c), pol) for c, pol in p.conds))
+        if isinstance(p.value_obj, Seq):
+            p.value_obj = Seq(p.value_obj.kind, sub_parts(p.value_obj.parts))
+            p.value = text(p.value_obj)
+        elif p.value is not None:
+            p.value = sub(p.value)
+            if isinstance(p.value_obj, (Term, Poly)):
+                p.value_obj = Term(p.value, getattr(p.value_obj, "kind", None))
 
     def _texts(self, p):
         yield p.value or ""
@@ -449,22 +579,22 @@ class Summariser:
                 base = base[4:]
             if base not in self.atoms and neg_text(base) in self.atoms:
                 base = neg_text(base)  # the condition is registered in its canonical (negative) orientation
-            if base in self.atoms and not _loop_var(base):
+            if base in self.atoms and not self._per_iteration(base):
                 return base
         if isinstance(v, Seq):
             for part in v.parts:
-                if part[0] == "if" and part[1] in self.atoms and not _loop_var(part[1]):
+                if part[0] == "if" and part[1] in self.atoms and not self._per_iteration(part[1]):
                     return part[1]
         for t in self._texts(p):
             for ctxt, (c, a, b) in self.condterms.items():
-                if ctxt in t and c in self.atoms and not _loop_var(c):
+                if ctxt in t and c in self.atoms and not self._per_iteration(c):
                     return c
         # conditional terms whose text changed after an inner one was decided
         for t in self._texts(p):
             if " if " not in t:
                 continue
             for c in {c for c, _, _ in self.condterms.values()}:
-                if c in self.atoms and not _loop_var(c) and _scan_condterm(t, c) is not None:
+                if c in self.atoms and not self._per_iteration(c) and _scan_condterm(t, c) is not None:
                     return c
         return None
 
@@ -490,6 +620,14 @@ class Summariser:
             for ctxt, (c, a, b) in sorted(self.condterms.items(), key=lambda kv: -len(kv[0])):
                 if c == ctext and ctxt in t:
                     t = t.replace(ctxt, a if branch else b)
+            # a conditional piece of a sequence that was rendered into a text: when('c', [A], [B])
+            for _ in range(50):
+                hit = _scan_when(t, ctext)
+                if hit is None:
+                    break
+                start, end, a_, b_ = hit
+                t = t[:start] + (a_ if branch else b_) + t[end:]
+            t = _fold_len(t)
             # terms whose text changed since they were built (an inner term was decided earlier) are found by their shape
             for _ in range(50):
                 hit = _scan_condterm(t, ctext)
@@ -569,7 +707,10 @@ class Summariser:
     def _lengths(self, test, env):
         """`if xs:` / `if not xs:` on a sequence value is a test of its length."""
         def is_seq(n):
-            return isinstance(n, ast.Name) and isinstance(env.get(n.id), Seq)
+            if not isinstance(n, ast.Name):
+                return False
+            v = env.get(n.id)
+            return isinstance(v, Seq) or (n.id in self.seq_names and (v is None or (isinstance(v, Term) and v.text == n.id)))
 
         def as_len(n):
             return ast.Compare(left=ast.Call(func=ast.Name(id="len", ctx=ast.Load()), args=[n], keywords=[]), ops=[ast.GtE()], comparators=[ast.Constant(value=1)])
@@ -1119,9 +1260,9 @@ class Summariser:
             self.depth += 1
             try:
                 tree = self.block(body, s)
+                return self.collapse(tree, loop_body=True)  # merging the branches of the body is still "inside the loop"
             finally:
                 self.depth -= 1
-            return self.collapse(tree, loop_body=True)
 
         # pass 1: per-iteration deltas
         env1 = dict(env)
@@ -1250,7 +1391,7 @@ class Summariser:
     def _element(self, inner, base, k):
         """Abstract element of an iterable in iteration k."""
         if isinstance(inner, Seq) and inner.kind == "list" and len(inner.parts) == 1 and inner.parts[0][0] == "rep":
-            return Term(f"_e{k}<{show_part(inner.parts[0])}>")
+            return Term(f"_e{k}")  # what it is an element of is said by the loop header
         return Term(f"_e{k}")
 
     # ------------------------------------------------------------------ expressions
@@ -1618,7 +1759,9 @@ def _intervals(conds):
                     changed = True
         if lo is not None and hi is not None and lo > hi:
             return None
-        if lo is not None and hi is not None and lo == hi:
+        if lo is not None and hi is not None and lo == hi and lo == natural:
+            rest.add((f"{x} < {lo + 1}", True))  # the lowest possible value: the complement of `not x < lo + 1`, one atom for both
+        elif lo is not None and hi is not None and lo == hi:
             rest.add((f"{x} == {lo}", True))
         else:
             if lo is not None and lo != natural:
@@ -1631,9 +1774,20 @@ def _intervals(conds):
     return rest
 
 
-def summarise(fn: ast.FunctionDef, params: dict | None = None, consts: dict | None = None):
+def sequence_parameters(fn) -> set:
+    """Names of the parameters annotated as list / dict / tuple / set / bytes / bytearray / str."""
+    out = set()
+    for a in fn.args.args + fn.args.kwonlyargs:
+        if a.annotation is not None:
+            t = ast.unparse(a.annotation).replace("typing.", "")
+            if t.split("[")[0].lower() in ("list", "dict", "tuple", "set", "bytes", "bytearray", "str", "sequence", "mapping", "frozenset"):
+                out.add(a.arg)
+    return out
+
+
+def summarise(fn: ast.FunctionDef, params: dict | None = None, consts: dict | None = None, seq_names=None):
     """[Path] of the function."""
-    return Summariser(fn, params, consts).run()
+    return Summariser(fn, params, consts, seq_names).run()
 
 
 def describe(paths) -> str:
